@@ -29,12 +29,12 @@ def baseIndent : List (List Char) → Option Nat
   | l :: ls => if isBlank l then baseIndent ls else some (leadingWs l)
 
 def dedentLine (base : Nat) (l : List Char) : List Char :=
-  if isBlank l then l else if leadingWs l ≥ base then l.drop base else l
+  if isBlank l then [] else if leadingWs l ≥ base then l.drop base else l
 
 /-- `detect_and_strip_indentation(lines)` -/
 def dedent (ls : List (List Char)) : List (List Char) :=
   match baseIndent ls with
-  | none => ls
+  | none => ls.map (fun _ => [])
   | some b => ls.map (dedentLine b)
 
 end Bardic.Parser
